@@ -12,10 +12,19 @@ for d in sorted(glob.glob(os.path.join(ROOT, "seeded", "C*-*"))):
     sid = os.path.basename(d)
     meta = json.load(open(d + "/meta.json"))
     res = json.load(open(d + "/result.json")) if os.path.exists(d + "/result.json") else {}
+    full = json.load(open(d + "/result_full.json")) if os.path.exists(d + "/result_full.json") else None
     prop = meta["property"]
     what = (meta.get("breaks") or "").replace("\n", " ").replace("|", "/")
     what = what[:150] + ("…" if len(what) > 150 else "")
-    if res.get("detected"):
+    if full is not None and full.get("detected"):
+        hs, labs = [], []
+        for v in full["violations"]:
+            m = re.search(r"harness=(\S+) assertion=(.*)", v)
+            if m:
+                hs.append(m.group(1)); labs.append(m.group(2))
+        nq += 1
+        rows.append("| %s | %s | **caught by the quick command of %s** (exit 1, %d s): %s — “%s” |" % (sid, what, prop, full.get("wall_s", 0), ", ".join("`%s`" % x for x in dict.fromkeys(hs)), labs[0][:120] if labs else ""))
+    elif res.get("detected"):
         hs, labs = [], []
         for v in res["violations"]:
             m = re.search(r"harness=(\S+) assertion=(.*)", v)
@@ -27,13 +36,12 @@ for d in sorted(glob.glob(os.path.join(ROOT, "seeded", "C*-*"))):
             t = "quick" if prop in qf.get(hn, []) else "thorough" if prop in tf.get(hn, []) else "not in a tier of " + prop
             inq = inq or t == "quick"
             tiers.append("`%s` (%s)" % (hn, t))
-        if inq: nq += 1
-        else: nt += 1
-        rows.append("| %s | %s | **caught**: %s — “%s” |" % (sid, what, "; ".join(tiers), labs[0][:120] if labs else ""))
+        nt += 1
+        rows.append("| %s | %s | quick command: %s; **caught by**: %s — “%s” |" % (sid, what, "not caught" if full is not None else "not run", "; ".join(tiers), labs[0][:120] if labs else ""))
     else:
         nm += 1
         rows.append("| %s | %s | **missed** (see below) |" % (sid, what))
-txt = "\n".join(rows) + "\n\ncaught in the quick tier of the seed's property: %d; only in the thorough tier: %d; missed: %d.\n" % (nq, nt, nm)
+txt = "\n".join(rows) + "\n\ncaught by the quick command of the seed's property: %d; only by a thorough-tier instance: %d; missed: %d.\n" % (nq, nt, nm)
 dp = os.path.join(ROOT, "DESIGN.md")
 s = open(dp).read()
 a = s.index("<!-- SEEDTABLE START -->") + len("<!-- SEEDTABLE START -->")
